@@ -1037,7 +1037,8 @@ class Converter:
         raise ValueError(self._message(node, f"Unsupported statement type '{type(node)!r}'."))
 
     def _translate_assign_stmt(self, stmt: ast.Assign | ast.AnnAssign) -> None:
-        def assign(lhs: ast.AST, rhs: ast.AST) -> None:
+        def assign(lhs: ast.AST, rhs: ast.AST) -> list[tuple[str, values.SymbolValue]]:
+            """Translates rhs and returns the bindings of the names in lhs, without binding them yet."""
             if isinstance(lhs, ast.Name):
                 # Assignments of the form "x = SomeExpression"
                 info = self._source_of(lhs)
@@ -1050,7 +1051,7 @@ class Converter:
                 if typeinfo is not None:
                     set_type_info(t, typeinfo)
                 var = values.SymbolValue(t, info)
-                self._bind(lhs, var)
+                return [(lhs, var)]
             elif isinstance(lhs, ast.Tuple):
                 # Assignments of the form "x, y, z = op.SomeOp(...)"
                 if not isinstance(rhs, ast.Call):
@@ -1071,11 +1072,10 @@ class Converter:
                 outputs = self._emit(output_names, callee, inputs, attrs)
                 if isinstance(outputs, ir.Value):
                     outputs = [outputs]
-                for x, output in zip(lhs.elts, outputs):
-                    self._bind(
-                        x.id,
-                        values.SymbolValue(output, self._source_of(x)),
-                    )
+                return [
+                    (x.id, values.SymbolValue(output, self._source_of(x)))
+                    for x, output in zip(lhs.elts, outputs)
+                ]
             else:
                 self._fail(lhs, f"Unsupported construct in LHS of assignment: '{type(lhs)!r}'")
 
@@ -1099,10 +1099,15 @@ class Converter:
                 self._fail(
                     stmt, "Expected same number of elements on lhs and rhs of assignments."
                 )
+            # As in Python, every right-hand side is evaluated before any name is bound
+            # (so that "x, y = y, x" swaps).
+            bindings = []
             for p, r in zip(lhs.elts, rhs.elts):
-                assign(p, r)
+                bindings.extend(assign(p, r))
         else:
-            assign(lhs, rhs)
+            bindings = assign(lhs, rhs)
+        for name, var in bindings:
+            self._bind(name, var)
 
     def _translate_return_stmt(self, stmt: ast.Return) -> None:
         def check_num_outputs(n):
